@@ -441,6 +441,13 @@ def run(repo, check):
     for f in r6.findings:
         f.rule = 'C14.R6'
     check.add(r6)
+    from sa.rules import c13
+    r7 = c13.rule_r5(repo)
+    r7.rule = 'C14.R7'
+    r7.title = 'every table-version selection gets its table group, also beyond the cache limit (shared with C13.R5)'
+    for f in r7.findings:
+        f.rule = 'C14.R7'
+    check.add(r7)
     check.assumptions = ['the contents of the bundled Table B / D files are data and are not decided (a lint of the 40 table directories found replication '
                          'over-runs in 3 sequences; not claimed)',
                          'the tables are abstracted as lookup oracles; TableR.lookup is the repository\'s own code']
